@@ -1,6 +1,10 @@
 import Poulpy.Model.Core.Ep
 import Poulpy.Lemmas.EpPhase
 import Poulpy.Props.C07
+import Poulpy.Model.Core.Expand
+import Poulpy.Lemmas.ExpandIdx
+import Poulpy.Lemmas.ExpandPhase
+import Poulpy.Lemmas.NegHal
 
 /-!
 # C04 — external products and CMux multiply by the EpGGSW plaintext within noise
@@ -79,10 +83,10 @@ theorem ep_identity (n : Nat) (m2 : Poly) (d P w e : Nat → Poly) (R : Nat)
     (hP : ∀ q, q < R → P q = polyAdd (Hal.negMul m2 (w q)) (e q)) :
     sumR n (fun q => Hal.negMul (d q) (P q)) R
       = polyAdd (Hal.negMul m2 (sumR n (fun q => Hal.negMul (d q) (w q)) R)) (sumR n (fun q => Hal.negMul (d q) (e q)) R) := by
-  rw [negMul_sumR n m2 _ R (fun q hq => by rw [negMul_length, hw q hq]), sumR_add]
+  rw [negMul_sumR n m2 _ R (fun q hq => by rw [Hal.negMul_length, hw q hq]), sumR_add]
   apply sumR_congr
   intro q hq
-  rw [hP q hq, negMul_add_right _ _ _ (by rw [negMul_length, hw q hq, he q hq]), negMul_negMul_comm]
+  rw [hP q hq, negMul_add_right _ _ _ (by rw [Hal.negMul_length, hw q hq, he q hq]), negMul_negMul_comm]
 
 example : sumR 2 (fun q => Hal.negMul ([[1, 2], [3, 4]].getD q []) ([[7, 1], [0, 5]].getD q [])) 2
     = polyAdd (Hal.negMul [0, 1] (sumR 2 (fun q => Hal.negMul ([[1, 2], [3, 4]].getD q []) ([[1, -6], [4, 0]].getD q [])) 2))
@@ -104,7 +108,7 @@ theorem cmux_selects (n k : Nat) (bit : Bool) (d P w e : Nat → Poly) (R : Nat)
   rw [ep_identity n _ d P w e R hw he hP, hD]
   have hlen : (polySub T F).length = n := by simp [polySub, hT, hF]
   have hN : (sumR n (fun q => Hal.negMul (d q) (e q)) R).length = n :=
-    sumR_length n _ R (fun q hq => by rw [negMul_length, he q hq])
+    sumR_length n _ R (fun q hq => by rw [Hal.negMul_length, he q hq])
   cases bit with
   | true =>
     simp only [if_true]
@@ -120,6 +124,72 @@ example : polyAdd (sumR 2 (fun q => Hal.negMul ([[3, -1]].getD q []) ([[1, 5]].g
     (fun q hq => by have h0 : q = 0 := (by omega); subst h0; rfl)
     (fun q hq => by have h0 : q = 0 := (by omega); subst h0; rfl)
     (fun q hq => by have h0 : q = 0 := (by omega); subst h0; decide) (by decide)
+
+/-! ## Row expansion (GGLWE → GGSW), third clause of the property -/
+
+/-- **Layer B — row expansion.**  Row `row` of the GGLWE is the GLWE `(body, a_1 … a_r)` with
+`body = (M + e₀) − Σ_j s_j ⋆ a_j` (`M = m2·2^{-(row+1)·dsize·b}`, `e₀` its encryption error).  The cell of
+column `col ≥ 1` produced by `ggsw_expand_rows_internal` is the gadget product of the mask columns with key
+`col−1` — whose input column `j` has phase `s ⋆ s_j + e_j` (`s = s_col`) — plus the body added to column `col`;
+its phase is therefore `Σ_j a_j ⋆ (s ⋆ s_j + e_j) + s ⋆ body`.  The theorem: this equals
+`s ⋆ (M + e₀) + Σ_j a_j ⋆ e_j` — the **same** `M` (hence the same `m2`) as in column 0, for every column and
+every row, with an explicit error sum.  (If the key's input column `j` held `s ⋆ s_{j'}` for a wrong `j'`, the
+terms `s ⋆ (s_{j'} − s_j) ⋆ a_j` would survive: this is what the per-cell oracle of `./check C04` detects.) -/
+theorem row_expansion_identity (n r : Nat) (hn : 0 < n) (s M e0 : Poly) (sj a e P : Nat → Poly)
+    (hs : s.length = n) (hM : M.length = n) (he0 : e0.length = n)
+    (hsj : ∀ j, j < r → (sj j).length = n) (ha : ∀ j, j < r → (a j).length = n) (he : ∀ j, j < r → (e j).length = n)
+    (hP : ∀ j, j < r → P j = polyAdd (Hal.negMul s (sj j)) (e j)) :
+    polyAdd (sumR n (fun j => Hal.negMul (a j) (P j)) r)
+        (Hal.negMul s (polySub (polyAdd M e0) (sumR n (fun j => Hal.negMul (sj j) (a j)) r)))
+      = polyAdd (Hal.negMul s (polyAdd M e0)) (sumR n (fun j => Hal.negMul (a j) (e j)) r) := by
+  have hS : (sumR n (fun j => Hal.negMul (sj j) (a j)) r).length = n :=
+    sumR_length n _ r (fun j hj => by rw [Hal.negMul_length, ha j hj])
+  have hN : (sumR n (fun j => Hal.negMul (a j) (e j)) r).length = n :=
+    sumR_length n _ r (fun j hj => by rw [Hal.negMul_length, he j hj])
+  have hMe : (polyAdd M e0).length = n := by simp [hM, he0]
+  rw [ep_identity n s a P sj e r hsj he hP]
+  have hcomm : sumR n (fun j => Hal.negMul (a j) (sj j)) r = sumR n (fun j => Hal.negMul (sj j) (a j)) r :=
+    sumR_congr n _ _ r (fun j hj => Hal.negMul_comm n (a j) (sj j) (ha j hj) (hsj j hj) hn)
+  rw [hcomm, negMul_sub_right s _ _ (by rw [hMe, hS])]
+  exact add_sub_regroup _ _ _ (by rw [hN, Hal.negMul_length, hS]) (by rw [Hal.negMul_length, Hal.negMul_length, hMe, hS])
+
+example : polyAdd (sumR 2 (fun j => Hal.negMul ([[2, -1]].getD j []) ([[1, 4]].getD j [])) 1)
+      (Hal.negMul [0, 1] (polySub (polyAdd [8, 0] [1, 0]) (sumR 2 (fun j => Hal.negMul ([[0, 1]].getD j []) ([[2, -1]].getD j [])) 1)))
+    = polyAdd (Hal.negMul [0, 1] (polyAdd [8, 0] [1, 0])) (sumR 2 (fun j => Hal.negMul ([[2, -1]].getD j []) ([[2, 4]].getD j [])) 1) := by
+  decide
+
+/-- **Layer A — secret-tensor index map** (`GLWESecretTensor::at(i, j)`, the index under which the key of
+`gglwe_to_ggsw_key_encrypt_sk` finds `s_i·s_j`): symmetric in `(i, j)` … -/
+theorem secretTensorIdx_symm (r i j : Nat) : secretTensorIdx r i j = secretTensorIdx r j i :=
+  secretTensorIdx_symm' r i j
+
+example : secretTensorIdx 3 2 0 = secretTensorIdx 3 0 2 ∧ secretTensorIdx 3 0 2 = 2 := by decide
+
+/-- … equal to the packed-triangle index `i·rank + j − i(i+1)/2` for `i ≤ j`, inside `[0, pairs(rank))` … -/
+theorem secretTensorIdx_range (r i j : Nat) (h : i ≤ j) (hj : j < r) :
+    secretTensorIdx r i j = i * r + j - i * (i + 1) / 2 ∧ secretTensorIdx r i j < secretTensorPairs r := by
+  refine ⟨secretTensorIdx_le r i j h, ?_⟩
+  have := secretTensorIdx_lt' r i j h hj
+  unfold secretTensorPairs
+  omega
+
+example : secretTensorIdx 3 1 2 = 4 ∧ secretTensorPairs 3 = 6 := by decide
+
+/-- … injective on the pairs `i ≤ j < rank` (no two products share a slot), for every rank … -/
+theorem secretTensorIdx_injective (r i j i' j' : Nat) (h : i ≤ j) (hj : j < r) (h' : i' ≤ j') (hj' : j' < r)
+    (e : secretTensorIdx r i j = secretTensorIdx r i' j') : i = i' ∧ j = j' :=
+  secretTensorIdx_inj' r i j i' j' h hj h' hj' e
+
+example : secretTensorIdx 3 1 1 ≠ secretTensorIdx 3 0 2 := by decide
+
+/-- … and onto `[0, pairs(rank))` (every slot holds a product) — hence a bijection; enumerated for
+`rank ≤ 6`, which contains the property's ranks 1..3 (general surjectivity follows from injectivity and
+the count of pairs; not formalised). -/
+theorem secretTensorIdx_surjective_partial :
+    ∀ r, r < 7 → ∀ t, t < (r + 1) * r / 2 → ∃ i, i < r ∧ ∃ j, j < r ∧ i ≤ j ∧ secretTensorIdx r i j = t := by
+  decide
+
+example : ∃ i, i < 3 ∧ ∃ j, j < 3 ∧ i ≤ j ∧ secretTensorIdx 3 i j = 5 := by decide
 
 /-
 FULL STATEMENT (not proved in general): for every EpGGSW `g` (any `dsize`), every input `a` and every
